@@ -200,7 +200,7 @@ func cmdCheck(args []string) int {
 		keepAll = true
 		fmt.Println("queries kept in", work)
 	}
-	d := &discharger{dir: work, seed: seed, timeoutMs: 10000, retryMs: 30000, par: 8}
+	d := &discharger{dir: work, seed: seed, timeoutMs: 10000, retryMs: 30000, par: 5}
 	d.deadline = t0.Add(270 * time.Second)
 	if *tier == "thorough" {
 		d.timeoutMs, d.retryMs = 30000, 120000
